@@ -11,6 +11,7 @@ from typing import (
     Callable,
     Generic,
     Hashable,
+    List,
     Mapping,
     Optional,
     Sequence,
@@ -220,12 +221,15 @@ class CaseWhen(Generic[A, B], Evaluatable[B]):
         self.default = default
 
     def _evaluate(self, value: A, options: Options) -> Evaluatable[B]:
+        # the chosen branch also depends on every condition that was consulted
+        consulted: List[Evaluatable[Callable[[A], bool]]] = []
         for condition, result in self.cases:
+            consulted.append(condition)
             if condition.evaluate(options)(value):
-                return result
+                return functools.reduce(_DependsOn, consulted, result)  # type: ignore
 
         if self.default is not MISSING:
-            return self.default
+            return functools.reduce(_DependsOn, consulted, self.default)  # type: ignore
 
         raise CaseWhenError(self.dispatch, value)
 
